@@ -193,6 +193,11 @@ func (c *Cell) String() string {
 	return (*pb.Cell)(c).String()
 }
 
+// minCellLen is the length of the smallest possible serialized cell:
+// 4 byte lengths of key-value, key and value, 2 byte row length, 1 byte
+// family length, 8 byte timestamp and 1 byte type.
+const minCellLen = 4 + 4 + 4 + 2 + 1 + 8 + 1
+
 // cellFromCellBlock deserializes a cell from a reader
 func cellFromCellBlock(b []byte) (*pb.Cell, uint32, error) {
 	if len(b) < 4 {
@@ -201,9 +206,13 @@ func cellFromCellBlock(b []byte) (*pb.Cell, uint32, error) {
 	}
 
 	kvLen := binary.BigEndian.Uint32(b[0:4])
-	if len(b) < int(kvLen)+4 {
+	if uint64(len(b)) < uint64(kvLen)+4 {
 		return nil, 0, fmt.Errorf(
-			"buffer is too small: expected %d, got %d", int(kvLen)+4, len(b))
+			"buffer is too small: expected %d, got %d", uint64(kvLen)+4, len(b))
+	}
+	if len(b) < minCellLen {
+		return nil, 0, fmt.Errorf(
+			"buffer is too small: expected at least %d, got %d", minCellLen, len(b))
 	}
 
 	rowKeyLen := binary.BigEndian.Uint32(b[4:8])
@@ -211,21 +220,41 @@ func cellFromCellBlock(b []byte) (*pb.Cell, uint32, error) {
 	keyLen := binary.BigEndian.Uint16(b[12:14])
 	b = b[14:]
 
+	// all the lengths come from the network, check them against what
+	// we've actually got before slicing
+	if len(b) < int(keyLen)+1 {
+		return nil, 0, fmt.Errorf(
+			"buffer is too small for row of length %d: got %d", keyLen, len(b))
+	}
 	key := b[:keyLen]
 	b = b[keyLen:]
 
 	familyLen := b[0]
 	b = b[1:]
 
+	if len(b) < int(familyLen) {
+		return nil, 0, fmt.Errorf(
+			"buffer is too small for family of length %d: got %d", familyLen, len(b))
+	}
 	family := b[:familyLen]
 	b = b[familyLen:]
 
+	if uint64(rowKeyLen) < 2+uint64(keyLen)+1+uint64(familyLen)+8+1 {
+		return nil, 0, fmt.Errorf("HBase has lied about key length: "+
+			"%d is too short for row of length %d and family of length %d",
+			rowKeyLen, keyLen, familyLen)
+	}
 	qualifierLen := rowKeyLen - uint32(keyLen) - uint32(familyLen) - 2 - 1 - 8 - 1
-	if 4 /*rowKeyLen*/ +4 /*valueLen*/ +2 /*keyLen*/ +
-		uint32(keyLen)+1 /*familyLen*/ +uint32(familyLen)+qualifierLen+
-		8 /*timestamp*/ +1 /*cellType*/ +valueLen != kvLen {
+	if total := 4 /*rowKeyLen*/ + 4 /*valueLen*/ + 2 /*keyLen*/ +
+		uint64(keyLen) + 1 /*familyLen*/ + uint64(familyLen) + uint64(qualifierLen) +
+		8 /*timestamp*/ + 1 /*cellType*/ + uint64(valueLen); total != uint64(kvLen) {
 		return nil, 0, fmt.Errorf("HBase has lied about KeyValue length: expected %d, got %d",
-			kvLen, 4+4+2+uint32(keyLen)+1+uint32(familyLen)+qualifierLen+8+1+valueLen)
+			kvLen, total)
+	}
+	if uint64(len(b)) < uint64(qualifierLen)+8+1+uint64(valueLen) {
+		return nil, 0, fmt.Errorf(
+			"buffer is too small: expected %d, got %d",
+			uint64(qualifierLen)+8+1+uint64(valueLen), len(b))
 	}
 	qualifier := b[:qualifierLen]
 	b = b[qualifierLen:]
